@@ -76,6 +76,10 @@ class Matrix:
     def __getitem__(self, a):
         return MatrixRow(a)
 
+    @property
+    def shape(self):
+        return (z3.Int("PRE_ROWS"), z3.Int("PRE_COLS"))
+
 
 class MatrixRow:
     def __init__(self, a):
@@ -286,6 +290,12 @@ class NS:
         if name in self._extra:
             return self._extra[name]
         if name not in self._st.locals:
+            ty = getattr(self._ex, "contract", None) and self._ex.contract.locals_types.get(name)
+            if ty:
+                # a typed local that is not bound yet (e.g. assigned only inside the loop): an arbitrary value;
+                # clauses about it must be guarded by v.defined(name)
+                self._extra[name] = self._ex.fresh_param(self._st, "unbound." + name, ty)
+                return self._extra[name]
             raise SpecDrift("spec refers to local `%s` which is not bound here" % name)
         return wrap(self._ex, self._st, self._st.locals[name])
 
@@ -356,6 +366,11 @@ class NodeListView:
     def __getitem__(self, i):
         return NodeView(self._ex, self._st, self._oid, L.lift(i, INT))
 
+    def field(self, name):
+        """a (scalar) node field of all nodes as one list, e.g. nodes.field('cluster_label')"""
+        fields = self._st.heap[self._oid]
+        return SList(self._ex.named(fields["nodes." + name]), fields["nodes.len"], SCHEMAS["Node"][name])
+
 
 class NodeView:
     def __init__(self, ex, st, oid, idx):
@@ -388,6 +403,60 @@ class Obligation:
         return s.to_smt2()
 
 
+_SYMCACHE = {}
+
+
+def _symbols(t):
+    k = t.get_id()
+    if k in _SYMCACHE:
+        return _SYMCACHE[k]
+    out = set()
+    seen = set()
+    todo = [t]
+    while todo:
+        x = todo.pop()
+        if x.get_id() in seen:
+            continue
+        seen.add(x.get_id())
+        if z3.is_quantifier(x):
+            todo.append(x.body())
+            continue
+        if z3.is_app(x):
+            d = x.decl()
+            if d.kind() == z3.Z3_OP_UNINTERPRETED:
+                out.add(d.name())
+            todo.extend(x.children())
+    _SYMCACHE[k] = out
+    return out
+
+
+def _relevant(assumptions, goal, rounds=2):
+    asyms = [_symbols(a) for a in assumptions]
+    # symbols that occur almost everywhere (lengths, the model object ...) carry no relevance information
+    count = {}
+    for ss in asyms:
+        for x in ss:
+            count[x] = count.get(x, 0) + 1
+    ubiq = {x for x, c in count.items() if c > max(8, len(assumptions) // 4)}
+    syms = set(_symbols(goal)) - ubiq
+    chosen = [False] * len(assumptions)
+    asyms = [ss - ubiq for ss in asyms]
+    for _ in range(rounds):
+        grew = False
+        for i, a in enumerate(assumptions):
+            if not chosen[i] and (asyms[i] & syms or not asyms[i]):
+                chosen[i] = True
+                grew = True
+        new = set()
+        for i, c in enumerate(chosen):
+            if c:
+                new |= asyms[i]
+        if new <= syms and not grew:
+            break
+        syms |= new
+    return [a for a, c in zip(assumptions, chosen) if c]
+
+
 def solve(ob, timeout_ms=20000):
     t0 = time.time()
     g = ob.goal
@@ -411,6 +480,31 @@ def solve(ob, timeout_ms=20000):
         return ob
     if g is False:
         g = z3.BoolVal(False)
+    # stage 0: relevance filters - only the assumptions that share (non-ubiquitous) symbols with the goal, one round,
+    # then two rounds of closure.  Dropping assumptions is sound, and it keeps the (heavily quantified) posts of
+    # unrelated callees out of the instantiation engine.
+    alla = list(getattr(ob, "defs", [])) + list(ob.assumptions)
+    tried = set()
+    for rounds in (1, 2):
+        try:
+            rel = _relevant(alla, g, rounds=rounds)
+        except Exception:
+            rel = None
+        if rel is None or len(rel) >= len(alla) or len(rel) in tried:
+            continue
+        tried.add(len(rel))
+        s = z3.Solver()
+        s.set("timeout", max(2000, timeout_ms // 5))
+        s.set("auto_config", False)
+        s.set("smt.mbqi", False)
+        for a in rel:
+            s.add(a)
+        s.add(z3.Not(g))
+        if s.check() == z3.unsat:
+            ob.seconds = time.time() - t0
+            ob.status = "unsat"
+            ob.solver = "z3-" + z3.get_version_string() + "/ematching+relevance%d" % rounds
+            return ob
     # portfolio: E-matching only first (fast and stable), then z3's default configuration (MBQI on)
     r = z3.unknown
     for (mbqi, tmo, seed) in ((False, max(2000, timeout_ms // 4), 0), (True, timeout_ms // 2, 0),
@@ -1101,6 +1195,10 @@ class Exec:
             if f not in fields:
                 continue
             cur = fields[f]
+            if isinstance(cur, ObjRef):
+                # the attribute is rebound to a NEW object of the same class (e.g. `self.subgraph = Subgraph(..)`)
+                fields[f] = self.new_object(st, cur.cls, oid.split("#")[0] + "." + f)
+                continue
             if isinstance(cur, SList) and how == "content":
                 fields[f] = SList(fresh(oid.split("#")[0] + "." + f, cur.arr.sort()), cur.length, cur.elem)
             else:
@@ -1572,6 +1670,8 @@ class Exec:
         if isinstance(base, NodeList):
             if attr == "append":
                 return BoundMethod(base, attr)
+        if isinstance(base, Matrix) and attr == "shape":
+            return base.shape
         raise Unsupported("attribute %s on %r at line %d" % (attr, base, getattr(node, "lineno", 0)))
 
     def expr_Subscript(self, st, e):
